@@ -717,11 +717,20 @@ def run_job(job, kern, wd):
     os.makedirs(jd)
     res.dir = jd
     try:
-        if job.optional and not job.via and not kern.find_all(job.target):
-            res.status = 'skipped'
-            res.detail = 'function not instantiated in this configuration'
-            res.wall_s = time.time() - t0
-            return res
+        if job.optional:
+            present = True
+            if not job.via:
+                present = bool(kern.find_all(job.target))
+            else:
+                try:
+                    kern.resolve(job)
+                except Infra as e:
+                    present = 'not reachable' not in str(e)
+            if not present:
+                res.status = 'skipped'
+                res.detail = 'function not instantiated in this configuration'
+                res.wall_s = time.time() - t0
+                return res
         _run_job(job, kern, jd, res)
     except RefusedError as e:
         res.status = 'refused'
